@@ -115,6 +115,16 @@ func otherLanguages() []language.Tag {
 			}
 		}
 	}
+	// undetermined language with every region and a list of scripts, and other languages in Japan
+	for a := 'A'; a <= 'Z'; a++ {
+		for b := 'A'; b <= 'Z'; b++ {
+			codes = append(codes, "und-"+string([]rune{a, b}))
+		}
+	}
+	for _, sc := range strings.Fields("Jpan Hira Kana Hrkt Hani Hans Hant Latn Cyrl Arab Kore Grek Hebr Thai Deva") {
+		codes = append(codes, "und-"+sc, "und-"+sc+"-JP", "zh-"+sc)
+	}
+	codes = append(codes, "fr-JP", "zh-JP", "ko-JP", "ryu", "ain", "und-JP-u-ca-japanese", "und-u-rg-jpzzzz", "fr-u-rg-jpzzzz", "de-US")
 	seen := map[language.Tag]bool{}
 	var r []language.Tag
 	for _, c := range codes {
@@ -122,7 +132,8 @@ func otherLanguages() []language.Tag {
 		if err != nil {
 			continue
 		}
-		if b, _ := t.Base(); b.String() == "en" || b.String() == "ja" {
+		// the tag's own language subtag decides (Base() would infer Japanese for und-JP)
+		if l, _, _ := t.Raw(); l.String() == "en" || l.String() == "ja" {
 			continue
 		}
 		if seen[t] {
@@ -290,6 +301,11 @@ func init() {
 				}
 			}
 		}
+		var fe [][]string
+		for i := range nameTable {
+			fe = append(fe, []string{"name", fmt.Sprint(i)})
+		}
+		firstUse(r, fe)
 		r.Add("evaluations", evals)
 		r.Add("distinct_nontrivial", distinct)
 		r.Sample(map[string]any{"function": "names.MPRValueOf", "arguments": "X,N,L,H and -2^31,-2,-1,0,5,6,2^31", "languages": "en, ja, " + fmt.Sprint(len(others)) + " other tags"})
